@@ -514,8 +514,11 @@ class LDAPClient(LDAPSession):
             authentication=authentication,
         )
 
+        # Only change the state once the request was accepted, a closed
+        # session must stay closed.
+        msg_id = self._send(msg)
         self.state = SessionState.BINDING
-        return self._send(msg)
+        return msg_id
 
     def extended_request(
         self,
@@ -736,10 +739,13 @@ class LDAPServer(LDAPSession):
             ),
             server_sasl_creds=sasl_creds,
         )
+        # Only change the state once the response was accepted, a rejected
+        # response must not end the bind or reopen a closed session.
+        msg_id = self._send(msg)
         if result_code != LDAPResultCode.SASL_BIND_IN_PROGRESS:
             self.state = SessionState.OPENED
 
-        return self._send(msg)
+        return msg_id
 
     def extended_response(
         self,
